@@ -386,6 +386,15 @@ def locate1_requests(rng, tier):
             for corr in (0, 1):
                 for v in probes:
                     R.append("c09.locate1 %s %d %d %s" % (lst(xs), jl, corr, hx(v)))
+    # exactly one percent of the edge interval outside the domain is accepted (fix a411065), the next double beyond is not:
+    # spacing 100*2^k, for which 1e-2*h is exact in double
+    for k in (0, 2, -1):
+        h = 100.0 * 2.0 ** k
+        xs = [h * i for i in range(-2, 4)]
+        for v in (xs[0] - 0.01 * h, xs[-1] + 0.01 * h, math.nextafter(xs[0] - 0.01 * h, -math.inf), math.nextafter(xs[-1] + 0.01 * h, math.inf)):
+            for jl in (0, 2, len(xs) - 2):
+                for corr in (0, 1):
+                    R.append("c09.locate1 %s %d %d %s" % (lst(xs), jl, corr, hx(v)))
     # long tables: states far from the probe, so that the hunt doubles its stride many times
     for _ in range(60 if tier == "quick" else 400):
         n = rng.choice([30, 100, 1000, 2000])
